@@ -21,15 +21,20 @@ MemOf(pairs) == [ad \in {pairs[k][1] : k \in 1..Len(pairs)} |->
                    LET k == CHOOSE j \in 1..Len(pairs) : pairs[j][1] = ad IN pairs[k][2]]
 InputOf(r) == [c \in 1..9 |-> IF c = 1 THEN r.input ELSE <<>>]
 
-\* acc = [s, calls]; calls: <<0, v>> exit, <<1, byte word, stream word>> write, <<2, value>> read
+\* acc = [s, calls, stored, unw]; calls: <<0, v>> exit, <<1, byte word, stream word>> write, <<2, value>> read;
+\* stored = word addresses stored so far; unw = some load addressed a word outside the image that was never stored
+\* (the precondition of C06 / C13: "programs that never read memory they have not written")
 StepC(input, acc) ==
   LET s == acc.s IN
   IF s.st # "run" THEN acc
   ELSE LET t == Step(s, input)
            issvc == InFetch(s.pc) /\ Instr(s) = 13 * 16 + 3 /\ s.o = 0
            sp == Rd(s.mem, 1)
-       IN IF t.st = "undef" \/ ~issvc THEN [acc EXCEPT !.s = t]
-          ELSE [s |-> t, calls |-> Append(acc.calls,
+           ac == IF InFetch(s.pc) THEN Access(s, input) ELSE [f |-> 0, l |-> {}, w |-> {}]
+           unw1 == acc.unw \/ \E ad \in ac.l : ad >= acc.imgwords /\ ad \notin acc.stored
+           acc1 == [acc EXCEPT !.stored = @ \cup ac.w, !.unw = unw1]
+       IN IF t.st = "undef" \/ ~issvc THEN [acc1 EXCEPT !.s = t]
+          ELSE [acc1 EXCEPT !.s = t, !.calls = Append(acc.calls,
                    CASE s.a = 0 -> <<0, Rd(s.mem, Add(sp, 2))>>
                      [] s.a = 1 -> <<1, Rd(s.mem, Add(sp, 2)), Rd(s.mem, Add(sp, 3))>>
                      [] OTHER   -> <<2, Rd(t.mem, Add(sp, 1))>>)]
@@ -43,12 +48,12 @@ RunN(input, acc, n) ==     \* exactly n instructions (or until the machine stops
 Pairs(sq) == [i \in 1..Len(sq) |-> <<sq[i][1], sq[i][2]>>]
 Verdict(r) ==
   LET input == InputOf(r)
-      f == RunN(input, [s |-> State0(MemOf(r.img)), calls |-> <<>>], r.obs.steps)
+      f == RunN(input, [s |-> State0(MemOf(r.img)), calls |-> <<>>, stored |-> {}, unw |-> FALSE, imgwords |-> r.imgwords], r.obs.steps)
       t == f.s
       stdout == SelectSeq(t.out, LAMBDA e : e[1] = 0)
       files == FoldLeft(LAMBDA a, c : a \o SelectSeq(t.out, LAMBDA e : e[1] = c), <<>>, <<1, 2, 3, 4, 5, 6, 7, 8>>)
       consumed == IF t.ip[1] - 1 > Len(r.input) THEN Len(r.input) ELSE t.ip[1] - 1
-      base == [id |-> r.id, n |-> t.n, st |-> t.st]
+      base == [id |-> r.id, n |-> t.n, st |-> t.st, unw |-> f.unw]
       fail(why) == base @@ [v |-> "bad", why |-> why]
   IN IF t.st = "undef" THEN base @@ [v |-> "skip", why |-> t.why]
      ELSE IF r.obs.status \in {"unsafe", "throw", "limit"} THEN
